@@ -612,6 +612,11 @@ func runC04(ctx *common.Ctx) error {
 		}
 	}
 
+	// ---- 1e. what live sessions show agrees with the UID table (sessview.go; oracle only) ----
+	if err := sessionViewFamily(ctx, nlits, &id); err != nil {
+		return err
+	}
+
 	// ---- 2. random histories, generator advanced beyond the clock (values deterministic; compared with the model) ----
 	for ci := 0; ci < ncases; ci++ {
 		id++
